@@ -602,9 +602,18 @@ func verifStageGen(r *gen.Rand) []vsOp {
 		if r.Chance(2, 3) {
 			ops = append(ops, vsOp{kind: "ST"})
 		}
-		if profile == 7 && r.Chance(1, 6) && len(files) > 0 {
+		if profile == 7 && r.Chance(1, 3) && len(files) > 0 {
 			f := files[r.Intn(len(files))]
+			// the staged body is overwritten: zeroed, grown by a tail, or cut short
 			junk := make([]byte, len(f.content))
+			switch r.Intn(4) {
+			case 1:
+				junk = append(append([]byte{}, f.content...), []byte("-tail")...)
+			case 2:
+				junk = append([]byte{}, f.content[:len(f.content)/2]...)
+			case 3:
+				junk = append(junk, 7, 7, 7)
+			}
 			ops = append(ops, vsOp{kind: "TM", name: f.name, num: int64(r.Intn(2)), data: junk})
 		}
 		if r.Chance(1, 3) {
